@@ -9,6 +9,7 @@ import (
 	"runtime"
 	"sync"
 	"sync/atomic"
+	"time"
 
 	"github.com/ThreeDotsLabs/watermill"
 	"github.com/ThreeDotsLabs/watermill/message"
@@ -24,18 +25,21 @@ const RunawayCap = 3000
 
 // SubSpec describes one subscription of a program.
 type SubSpec struct {
-	Topic      int
-	During     bool // created concurrently with the publishers (else before them)
-	Consumers  int  // goroutines reading the output channel (>=1)
-	NackPct    int  // percentage of (uuid) that get 1..3 nacks before the ack
-	Slow       int  // max Gosched calls before settling
-	Mutate     bool // edit the received copy's metadata / re-assign its payload before settling
-	NeverAck   bool // leave the first received message unsettled forever
-	NestedTo   int  // >=0: publish a fresh message to this topic before settling (blocking-mode nesting)
-	CancelAt   int  // >=0: cancel the subscription context after this many receives (from the consumer)
-	CancelFree bool // cancel from a separate goroutine at a random moment
-	Decorators int  // number of MessageTransformSubscriberDecorators in front (C07)
-	StopAfter  int  // >=0: the consumer stops reading after this many receives (without cancelling)
+	Topic     int
+	During    bool // created concurrently with the publishers (else before them)
+	Consumers int  // goroutines reading the output channel (>=1)
+	NackPct   int  // percentage of (uuid) that get 1..3 nacks before the ack
+	Slow      int  // max Gosched calls before settling
+	Mutate    bool // edit the received copy's metadata / re-assign its payload before settling
+	// HoldFirstMs: the consumer that receives the subscription's first delivery keeps it unsettled for that long
+	// (a timer the quiescence detector knows about) - anything the Pub/Sub does on a timer while a message is held shows up
+	HoldFirstMs int
+	NeverAck    bool // leave the first received message unsettled forever
+	NestedTo    int  // >=0: publish a fresh message to this topic before settling (blocking-mode nesting)
+	CancelAt    int  // >=0: cancel the subscription context after this many receives (from the consumer)
+	CancelFree  bool // cancel from a separate goroutine at a random moment
+	Decorators  int  // number of MessageTransformSubscriberDecorators in front (C07)
+	StopAfter   int  // >=0: the consumer stops reading after this many receives (without cancelling)
 }
 
 // PubSpec describes one publisher goroutine.
@@ -65,7 +69,12 @@ type Program struct {
 	// two modes the harness identifies a message by the reserved metadata key IDKey; Delivery.UUID and PubRec.UUID
 	// always hold that identity, the snapshots hold the real UUID.
 	UUIDs string
+	// MsgCtx: published messages carry a context of their own: already cancelled, cancelled a few scheduling steps after
+	// Publish was called, or live. GoChannel documents no dependence on it: deliveries get the subscription's context.
+	MsgCtx bool
 }
+
+type pubCtxKey struct{}
 
 // IDKey is the metadata key carrying the harness identity of a message when Program.UUIDs is not unique.
 const IDKey = "gcw-id"
@@ -418,6 +427,9 @@ func (r *Run) consume(s *SubRec, seed uint64) {
 		for y := 0; y < sp.Slow; y++ {
 			runtime.Gosched()
 		}
+		if sp.HoldFirstMs > 0 && nrecv == 1 {
+			vlib.TimerWait(time.Duration(sp.HoldFirstMs) * time.Millisecond)
+		}
 		if sp.NestedTo >= 0 && first {
 			r.publishOne(-1-s.ID, sp.NestedTo, fmt.Sprintf("%s/nested/s%d/%s", r.ID, s.ID, d.UUID))
 		}
@@ -476,6 +488,24 @@ func (r *Run) publisher(pi int, ps PubSpec, rr *vlib.Rand) {
 			m := r.newMessage(uuid, rr.Payload(r.Prog.PayloadSz))
 			for k := rr.Intn(r.Prog.MetaKeys + 1); k > 0; k-- {
 				m.Metadata.Set(fmt.Sprintf("k%d", rr.Intn(4)), rr.UTF8(6))
+			}
+			if r.Prog.MsgCtx {
+				ctx, cancel := context.WithCancel(context.WithValue(context.Background(), pubCtxKey{}, uuid))
+				m.SetContext(ctx)
+				switch k := rr.Intn(10); {
+				case k < 3:
+					cancel()
+				case k < 6:
+					steps := rr.Intn(6)
+					go func() {
+						for y := 0; y < steps; y++ {
+							runtime.Gosched()
+						}
+						cancel()
+					}()
+				default:
+					_ = cancel // stays live
+				}
 			}
 			rec := &PubRec{Pub: pi, Topic: ps.Topic, UUID: uuid, Orig: m, OrigSnap: vlib.Snap(m), CallNo: call}
 			recs = append(recs, rec)
